@@ -743,3 +743,90 @@ def job_property_clean(tier, seed):
     except Unsupported as e:
         return _result(eng, I, bad, cands, samples, 0, asserting, t0, inconclusive="translator does not cover: %s" % e)
     return _result(eng, I, bad, _dedupe(cands), samples, 0, asserting, t0)
+
+
+# ---------------------------------------------------------------- C11.c: the version file name is injective on the stored instant
+def is_re_sub(fn):
+    import re as _re
+    return fn is _re.sub
+
+
+def re_sub_stub(pattern, repl, s, count=0, flags=0):
+    """re.sub for the one shape the library uses here: a character class of literals replaced by ''"""
+    import re._constants as C
+    import re._parser as sre_parse
+    if repl != "" or count or flags:
+        raise Unsupported("re.sub with replacement/count/flags")
+    p = list(sre_parse.parse(pattern))
+    if len(p) != 1 or p[0][0] is not C.IN or any(op is not C.LITERAL for op, _ in p[0][1]):
+        raise Unsupported("re.sub pattern %r" % pattern)
+    lits = [av for _, av in p[0][1]]
+    eng = Engine.cur
+    out = []
+    for c in SStr.of(s).chars:
+        if isinstance(c, int):
+            if c not in lits:
+                out.append(c)
+        elif not eng.decide(z3.Or([lift_c(c) == x for x in lits])):
+            out.append(c)
+    return mk(out)
+
+
+def replay_filename(ta, tb, pname, cname):
+    """real _timestamp2filename on two stored timestamps: equal names only for equal stored instants"""
+    from stix2.datastore.filesystem import _timestamp2filename
+    p, c = Precision[pname], PrecisionConstraint[cname]
+    a, b = utils.parse_into_datetime(ta, p, c), utils.parse_into_datetime(tb, p, c)
+    return (_timestamp2filename(a) != _timestamp2filename(b)) or a == b
+
+
+def job_filename_injective(tier, seed):
+    """C11.c: FileSystemSink names a version file after its modified time; two stored versions get the same name only if their stored
+    instants are equal (otherwise one version would be refused as an overwrite or lost)."""
+    from stix2.datastore import filesystem as FS
+    t0 = time.time()
+    stubs = {"__callables__": STUBS["__callables__"] + [(is_re_sub, re_sub_stub)]}
+    I = Interp(stubs)
+    eng = Engine()
+    bad, cands, samples, asserting = 0, [], [], 0
+    settings = [(Precision.MILLISECOND, PrecisionConstraint.MIN), (Precision.MILLISECOND, PrecisionConstraint.EXACT)] + \
+        ([] if tier == "quick" else [(Precision.ANY, PrecisionConstraint.EXACT)])
+    try:
+        for p, c in settings:
+            def body(eng):
+                fa, fb = fresh(eng, "a"), fresh(eng, "b")
+                if p == Precision.MILLISECOND and c == PrecisionConstraint.EXACT:
+                    for f in (fa, fb):      # stored values are already truncated to whole milliseconds
+                        eng.assume(z3.And([lift_c(d) == 48 for d in f["us"].digs[3:]]))
+                na = I.call_function(FS._timestamp2filename, [SymDT(fa, True, p, c, pytz_utc=True)], {})
+                nb = I.call_function(FS._timestamp2filename, [SymDT(fb, True, p, c, pytz_utc=True)], {})
+                return fa, fb, SStr.of(na), SStr.of(nb)
+            for pc, (kind, val) in eng.explore(body):
+                if kind != "return":
+                    return _result(eng, I, bad, cands, samples, 0, asserting, t0, inconclusive="raised %r" % (val,))
+                fa, fb, na, nb = val
+                if len(na) != len(nb):
+                    continue                 # different lengths: different names
+                asserting += 1
+                same_name = z3.And([lift_c(x) == lift_c(y) for x, y in zip(na.chars, nb.chars)])
+                same_inst = z3.And([lift(fa[k]) == lift(fb[k]) for k in FIELDS])
+                s = z3.Solver()
+                s.add(*pc)
+                s.add(same_name, z3.Not(same_inst))
+                eng.queries += 1
+                r = str(s.check())
+                if r == "unsat":
+                    if len(samples) < 3:
+                        samples.append({"setting": [p.name, c.name], "name_length": len(na), "query": "name(a) == name(b) and a != b", "result": "unsat"})
+                    continue
+                if r != "sat":
+                    return _result(eng, I, bad, cands, samples, 0, asserting, t0, inconclusive="solver %s" % r)
+                bad += 1
+                m = s.model()
+                ma, mb = model_fields(m, fa), model_fields(m, fb)
+                ta = "%04d-%02d-%02dT%02d:%02d:%02d.%06dZ" % tuple(ma[k] for k in FIELDS)
+                tb = "%04d-%02d-%02dT%02d:%02d:%02d.%06dZ" % tuple(mb[k] for k in FIELDS)
+                cands.append({"call": "replay_filename(%r, %r, %r, %r)" % (ta, tb, p.name, c.name), "desc": "two different stored instants share a file name"})
+    except Unsupported as e:
+        return _result(eng, I, bad, cands, samples, 0, asserting, t0, inconclusive="translator does not cover: %s" % e)
+    return _result(eng, I, bad, _dedupe(cands), samples, 0, asserting, t0)
